@@ -4,6 +4,7 @@ use std::time::Duration;
 
 pub mod c01;
 pub mod c02;
+pub mod c03;
 
 pub trait Check: UnitRunner {
   fn id(&self) -> &'static str;
@@ -18,6 +19,7 @@ pub fn make(id: &str, tier: Tier) -> Option<Box<dyn Check>> {
   match id {
     "C01" => Some(Box::new(c01::C01::new(tier))),
     "C02" => Some(Box::new(c02::C02::new(tier))),
+    "C03" => Some(Box::new(c03::C03::new(tier))),
     _ => None,
   }
 }
